@@ -22,6 +22,8 @@ pub mod prop_c14;
 pub mod prop_c15;
 pub mod prop_c20;
 pub mod prop_merge;
+pub mod prop_c16;
+pub mod prop_c18;
 
 use framework::PropertyDef;
 
@@ -40,6 +42,8 @@ pub fn registry() -> Vec<PropertyDef> {
         prop_c14::def(),
         prop_c15::def(),
         prop_c20::def(),
+        prop_c16::def(),
+        prop_c18::def(),
     ]
 }
 
